@@ -540,7 +540,7 @@ func runC10(rc *fw.RunCtx) {
 		}
 	}
 	want := `[[5, 6], "caught:boom 77"]`
-	if out.Result == nil || out.Result.Inspect() != want {
+	if out.Result == nil || safeInspect(out.Result) != want {
 		rc.Violate("wait/result-or-error", "final value %s, expected %s", out.String(), want)
 		return
 	}
